@@ -7,6 +7,7 @@ import numpy as np
 from hypothesis import strategies as st
 
 from refs import setlattice as SL
+from vlib import defaults
 from vlib.core import Part
 
 PROPERTY = "C18"
@@ -1156,4 +1157,7 @@ PARTS = [
          fuzz=dict(modules=["pyyeti.locate"], time=25, time_thorough=300), tmax_thorough=400),
     Part("fuzz_dofpv", oracle_dofpv, strategy=dof_cases, quick=(1, 600), thorough=(4, 20000),
          fuzz=dict(modules=["pyyeti.nastran.n2p"], time=25, time_thorough=300), tmax_thorough=400),
+    # documented defaults: leaving a keyword out = passing its documented value (vlib/defaults.py)
+    Part("defaults", defaults.make_oracle("C18"), enum=defaults.make_enum(), quick=(1, None), thorough=(1, None),
+         exhaustive=True),
 ]
